@@ -18,7 +18,7 @@ var hop=O.prototype.hasOwnProperty, pie=O.prototype.propertyIsEnumerable, isArr=
 var errs=[["TypeError",TypeError.prototype],["RangeError",RangeError.prototype],["SyntaxError",SyntaxError.prototype],
           ["ReferenceError",ReferenceError.prototype],["EvalError",EvalError.prototype],["URIError",URIError.prototype],["Error",Error.prototype]];
 var ids=new Map(), mapGet=Map.prototype.get, mapSet=Map.prototype.set;
-var names=O_create(null), xcount=0, logs="", anonFn=false;
+var names=O_create(null), xcount=0, logs="", anonFn=false, anonAll=false;
 var U8=Uint8Array, I8=Int8Array, U8C=Uint8ClampedArray, I16=Int16Array, U16=Uint16Array, I32=Int32Array, U32=Uint32Array, F32=Float32Array, F64=Float64Array;
 var Str=String, Sym=Symbol, MathO=Math, ArrP=Array.prototype;
 
@@ -34,6 +34,7 @@ function render(v){
   var n = R_apply(mapGet,ids,[v]);
   if (n === void 0) {
     if (anonFn && t === "function") return "o:hostfn";
+    if (anonAll && t !== "symbol") return t === "function" ? "o:hostfn" : "o:hostobj";
     n = "x"+(++xcount); reg(v,n);
   }
   return (t === "symbol" ? "y:" : "o:")+n;
@@ -83,6 +84,7 @@ D.takeConv=function(){ var c=conv; conv=""; return c };
 D.reg=reg; D.render=render; D.thrown=thrown;
 D.byName=function(n){ return names[n] };
 D.setAnonFn=function(b){ anonFn=b };
+D.setAnonAll=function(b){ anonAll=b };
 D.takeLog=function(){ var l=logs; logs=""; return l };
 D.dump=wrap(dump);
 // observe(o, k1, k2, …): dump, then per probe key: own-descriptor-defined, hasOwn, has, prototype-has
